@@ -770,24 +770,55 @@ func rowTweak(out *vio.Out, sum *Summary, r *Row, line []byte, rng *rand.Rand, i
 	}
 	var q32 []byte
 	parity := false
+	t32 := ref.B32(t)
 	if q.Inf {
-		q32 = ref.B32(pt.X)
-		if rng.Intn(2) == 0 {
-			q32 = make([]byte, 32)
+		// lift_x(p) + t*G is the point at infinity: every (output key, parity bit) must be refused
+		if tw != "cancel" {
+			return fmt.Errorf("point at infinity outside the cancel class")
 		}
-		parity = rng.Intn(2) == 1
+		parity = par == "wrong"
+		switch qm {
+		case "self":
+			q32 = ref.B32(pt.X) // = x(t*G)
+		case "zero":
+			q32 = make([]byte, 32)
+		case "left":
+			// whatever the library's own addition leaves behind in the key; it must also say that the addition failed
+			var xy secp256k1.XY
+			var tn secp256k1.Number
+			added := false
+			pn := safely(func() {
+				xy.ParseXOnlyPubkey(p32)
+				tn.SetBytes(t32)
+				added = xy.ECPublicTweakAdd(&tn)
+				xy.X.Normalize()
+				q32 = make([]byte, 32)
+				xy.X.GetB32(q32)
+			})
+			sum.count(0, 1, 0)
+			if pn != "" || added {
+				report(out, sum, "C03:tweak:ECPublicTweakAdd:infinity", "XY.ECPublicTweakAdd reports success although key + t*G is the point at infinity "+pn, line, inst,
+					map[string]string{"internal_key": hx(p32), "tweak": hx(t32), "left_x": hx(q32)}, r.Rules)
+			}
+			if len(q32) != 32 {
+				q32 = ref.B32(pt.X)
+			}
+		default:
+			return fmt.Errorf("output key class %q with the point at infinity", qm)
+		}
 	} else {
 		q32 = ref.B32(q.X)
 		parity = q.YOdd()
+		if qm == "differ" {
+			b := rng.Intn(256)
+			q32[b/8] ^= 1 << uint(b%8)
+		} else if qm != "match" {
+			return fmt.Errorf("output key class %q for a finite sum", qm)
+		}
+		if par == "wrong" {
+			parity = !parity
+		}
 	}
-	if qm == "differ" && !q.Inf {
-		b := rng.Intn(256)
-		q32[b/8] ^= 1 << uint(b%8)
-	}
-	if par == "wrong" {
-		parity = !parity
-	}
-	t32 := ref.B32(t)
 	want := ref.TapTweakCheck(q32, p32, t32, parity)
 	if want != (r.V == "accept") && !trustSpec {
 		return fmt.Errorf("specification says %s, reference says %v for q=%x p=%x t=%x parity=%v", r.V, want, q32, p32, t32, parity)
